@@ -4,6 +4,19 @@
 //! A (rates.rs)    every f32 rate in (0,1] -> real (n, alpha) split, exact integer oracle
 //! B (draws.rs)    FixedFractionSample x all 2^24 f32 draws; SampledEmf weight in real EMF output
 //! C (congress.rs) all histories of per-interval group volumes on the real CongressSample
+/// `Violations::add` that stops rendering descriptions and replays once a class has 32 cases per
+/// worker (a broken tree fails millions of times); the count stays exact.
+macro_rules! vadd {
+    ($v:expr, $key:expr, $what:expr, $replay:expr) => {{
+        let k = $key;
+        let k: &str = k.as_ref();
+        match $v.by_key.get_mut(k) {
+            Some(x) if x.count >= 32 => x.count += 1,
+            _ => $v.add(k.to_string(), $what, $replay),
+        }
+    }};
+}
+
 mod congress;
 mod draws;
 mod rates;
@@ -44,6 +57,8 @@ fn main() {
         a.two_weights_possible += p.two_weights_possible;
         a.threshold_draws += p.threshold_draws;
         a.expectation_exact += p.expectation_exact;
+        a.rates_not_within_1 += p.rates_not_within_1;
+        if p.max_abs_dev.1 != 0 && (a.max_abs_dev.1 == 0 || p.max_abs_dev.0 * a.max_abs_dev.1 as u128 > a.max_abs_dev.0 * p.max_abs_dev.1 as u128) { a.max_abs_dev = p.max_abs_dev }
         a.n_changes += p.n_changes;
         a.n_not_monotone += p.n_not_monotone;
         let (rs, bs) = rates::ASt::max_rel(&[&p.max_num_small]);
@@ -68,6 +83,14 @@ fn main() {
         "rates_through_the_n_alpha_split": a.split,
         "inverse_below_2^53": a.below_2_53, "inverse_at_or_above_2^53": a.at_or_above_2_53,
         "inverse_is_an_integer": a.integer_inverse,
+        "within_1_clause_when_inverse_at_or_above_2^53": {
+            "rates_with_a_selectable_weight_more_than_1_from_the_inverse": a.rates_not_within_1,
+            "of_rates_in_that_range": a.at_or_above_2_53,
+            "max_absolute_deviation_weight_minus_inverse": if a.max_abs_dev.1 == 0 { json!(null) } else { json!({
+                "exact": format!("{}/{}", a.max_abs_dev.0, a.max_abs_dev.1), "approx": a.max_abs_dev.0 as f64 / a.max_abs_dev.1 as f64,
+                "at_rate": rates::rate_json(f32::from_bits(a.max_abs_dev.2)) }) },
+            "keys": "weight-not-within-1:f64-rounding-of-inverse = within 1 + half an f64 ulp of the inverse (the reciprocal is taken in f64); weight-not-within-1:beyond-f64-rounding = anything worse",
+        },
         "rates_where_both_weights_can_be_drawn": a.two_weights_possible,
         "threshold_draws_through_rate_to_n": a.threshold_draws,
         "distinct_lower_weights_n": distinct_weights, "n_monotone_in_rate": a.n_not_monotone == 0,
